@@ -885,7 +885,7 @@ def stream_cache(tier, seed):
         ops += ["v:%d" % k for k in range(len(txs))] + ["v:99", "l", "f"]
         emit(cap, ops)
     # numbers mined from the current source as capacity, value size, number of entries and key
-    for v in mined_values(limit=(300 if tier == "quick" else 5000)):
+    for v in mined_values(limit=(5000 if tier == "quick" else 70000)):
         if v < 1:
             continue
         for cap, szs in ((v, [v, v - 1, 1, v // 2, v + 1, (v + 1) // 2]), (2 * v + 1, [v, v + 1, v - 1, 1]), (v + 3, [v, 1, 2, 3])):
